@@ -51,10 +51,11 @@ pub fn be_packet(datagram: &mut BytesMut, dcid_len: usize) -> Result<Packet, Err
         nom::Err::Error(e) => e,
         _ => unreachable!("parsing packet type never generates failure"),
     })?;
-    let (remain, header) = be_header(pkty, dcid_len, remain).map_err(|e| match e {
-        ne @ nom::Err::Incomplete(_) => Error::IncompleteHeader(pkty, ne.to_string()),
-        _ => unreachable!("parsing packet header never generates error or failure"),
-    })?;
+    // Besides being incomplete, a header can be malformed (e.g. a connection ID length byte
+    // greater than 20 in a long header): the bytes come from the network, so this is a parse
+    // error of the packet, not a bug of ours.
+    let (remain, header) = be_header(pkty, dcid_len, remain)
+        .map_err(|e| Error::IncompleteHeader(pkty, e.to_string()))?;
     match header {
         Header::VN(header) => {
             datagram.clear();
